@@ -308,13 +308,16 @@ def _extract(repo):
     fact_error = None
     try:
         key_is_object, reset = _source_facts(cdefs, cc)
+        val_key_literal = _enum_value_key(cdefs)
+        help_at_call = _help_palette_at_call(cdefs)
     except ExtractError as e:
-        key_is_object, reset, fact_error = None, None, str(e)
+        key_is_object, reset, val_key_literal, help_at_call, fact_error = None, None, None, None, str(e)
     synts = sorted({dflt} | set(builtin) | {s for c in classes for s in c["local"].values()} | {s for c in classes for s in (c["defaults"] or {})}
                    | {p for d in [builtin] + [c["defaults"] or {} for c in classes] for p in [parse_descr(x)[0] for x in d.values()] if p})
     accs = sorted({a for c in classes for a in c["local"]})
     res = {"classes": classes, "synts": synts, "accs": accs, "dflt": dflt, "builtin": builtin,
-           "key_is_object": key_is_object, "reset": reset, "fact_error": fact_error}
+           "key_is_object": key_is_object, "reset": reset, "val_key_literal": val_key_literal, "help_at_call": help_at_call,
+           "fact_error": fact_error}
     _EXTRACT_CACHE[key] = (mt, res)
     return res
 
@@ -365,6 +368,117 @@ def _source_facts(cdefs, cc):
     return key_is_object, reset
 
 
+def _methods(node):
+    return {n.name: n for n in node.body if isinstance(n, ast.FunctionDef)}
+
+
+def _enum_value_key(cdefs):
+    """(3) what the by-value dicts of PPEnumFieldType (cells: self._cache[palette][modifier], lengths:
+    self._cache_lengths[modifier]) are indexed with.
+    True  = only with val_key = self._val_cache_key(value), _val_cache_key returning (type(value), str(value), value):
+            one entry per literal (the repair of enum-cache-equal-keys);
+    False = with the value itself (Python-equal values 1 / True / 1.0 share an entry: the old code).
+    Anything else is not recognised."""
+    node = cdefs.get(("ppobj", "PPEnumFieldType"))
+    if node is None:
+        raise ExtractError("PPEnumFieldType not found")
+    ms = _methods(node)
+    need = ["make_desired_cell_ch_chunks", "_make_text_cache_for_val", "get_cell_text_len", "_make_len_cache_for_val"]
+    for nm in need:
+        if nm not in ms:
+            raise ExtractError(f"PPEnumFieldType.{nm} not found")
+    by_value = {"make_desired_cell_ch_chunks": ["by_value_cache"], "get_cell_text_len": ["by_val_lenghs"],
+                "_make_text_cache_for_val": ["by_fmt_cache[*]"], "_make_len_cache_for_val": ["self._cache_lengths[*]"]}
+    used = set()        # names the by-value dicts are indexed / tested with
+    nsites = 0
+    for nm in need:
+        f = ms[nm]
+        for n in ast.walk(f):
+            # <dict>[k]  and  k (not) in <dict>
+            if isinstance(n, ast.Subscript):
+                base = ast.unparse(n.value)
+                inner = None
+                if isinstance(n.value, ast.Subscript):
+                    inner = ast.unparse(n.value.value) + "[*]"
+                if base in by_value[nm] or inner in by_value[nm]:
+                    if not isinstance(n.slice, ast.Name):
+                        raise ExtractError(f"PPEnumFieldType.{nm}: by-value cache indexed with an expression")
+                    used.add(n.slice.id)
+                    nsites += 1
+            elif isinstance(n, ast.Compare) and len(n.ops) == 1 and isinstance(n.ops[0], (ast.In, ast.NotIn)):
+                if ast.unparse(n.comparators[0]) in by_value[nm]:
+                    if not isinstance(n.left, ast.Name):
+                        raise ExtractError(f"PPEnumFieldType.{nm}: by-value cache tested with an expression")
+                    used.add(n.left.id)
+                    nsites += 1
+    if nsites < 16:
+        raise ExtractError(f"PPEnumFieldType: only {nsites} accesses to the by-value caches recognised (16 expected)")
+    # other writers / readers of the caches would escape the analysis
+    for nm, f in ms.items():
+        if nm in need or nm == "__init__":
+            continue
+        src = ast.unparse(f)
+        if "self._cache" in src or "by_fmt_cache" in src:
+            raise ExtractError(f"PPEnumFieldType.{nm} touches the caches")
+    if used == {"value"}:
+        return False
+    if used != {"val_key"}:
+        raise ExtractError(f"PPEnumFieldType: by-value caches indexed with {sorted(used)}")
+    kf = ms.get("_val_cache_key")
+    if kf is None or [a.arg for a in kf.args.args] != ["value"]:
+        raise ExtractError("PPEnumFieldType._val_cache_key(value) not found")
+    body = [n for n in kf.body if not (isinstance(n, ast.Expr) and isinstance(n.value, ast.Constant))]
+    if len(body) != 1 or not isinstance(body[0], ast.Return) or ast.unparse(body[0].value).replace(" ", "") != "(type(value),str(value),value)":
+        raise ExtractError("PPEnumFieldType._val_cache_key: expected 'return type(value), str(value), value'")
+    for nm in need:
+        asg = [n for n in ast.walk(ms[nm]) if isinstance(n, ast.Assign) and any(isinstance(t, ast.Name) and t.id == "val_key" for t in n.targets)]
+        if len(asg) != 1 or ast.unparse(asg[0].value).replace(" ", "") != "self._val_cache_key(value)" or asg[0] not in ms[nm].body:
+            raise ExtractError(f"PPEnumFieldType.{nm}: expected exactly one top-level 'val_key = self._val_cache_key(value)'")
+    return True
+
+
+def _help_palette_at_call(cdefs):
+    """(4) when HCommand / LLImpl obtain their palette.
+    True  = `_c` is a read-only property returning self._mk_palette(None, None, None) and nothing else binds self._c:
+            the palette is looked up when help is printed (the repair of hdoc-captured-palette);
+    False = __init__ assigns self._c = self._mk_palette(None, None, None) (captured at construction: the old code).
+    Anything else is not recognised."""
+    res = []
+    for q in ("HCommand", "LLImpl"):
+        node = cdefs.get(("hdoc", q))
+        if node is None:
+            raise ExtractError(f"hdoc.{q} not found")
+        ms = _methods(node)
+        assigns = [(nm, n) for nm, f in ms.items() for n in ast.walk(f)
+                   if isinstance(n, (ast.Assign, ast.AugAssign, ast.AnnAssign))
+                   and any(_dotted(t) == "self._c" for t in (n.targets if isinstance(n, ast.Assign) else [n.target]))]
+        mk = "self._mk_palette(None,None,None)"
+        prop = ms.get("_c")
+        if prop is not None:
+            decos = [ast.unparse(d) for d in prop.decorator_list]
+            body = [n for n in prop.body if not (isinstance(n, ast.Expr) and isinstance(n.value, ast.Constant))]
+            if (decos != ["property"] or assigns or len(body) != 1 or not isinstance(body[0], ast.Return)
+                    or ast.unparse(body[0].value).replace(" ", "") != mk):
+                raise ExtractError(f"hdoc.{q}._c: expected a read-only property returning self._mk_palette(None, None, None)")
+            if any(isinstance(n, ast.Assign) and any(isinstance(t, ast.Name) and t.id == "_c" for t in n.targets) for n in node.body):
+                raise ExtractError(f"hdoc.{q}: class attribute _c besides the property")
+            res.append(True)
+        else:
+            if len(assigns) != 1 or assigns[0][0] != "__init__" or ast.unparse(assigns[0][1].value).replace(" ", "") != mk:
+                raise ExtractError(f"hdoc.{q}: how self._c is bound is not recognised")
+            res.append(False)
+        # the palette must reach the formatters only through self._c
+        for nm, f in ms.items():
+            if nm == "_c":
+                continue
+            calls = [n for n in ast.walk(f) if isinstance(n, ast.Call) and _dotted(n.func) in ("self._mk_palette", "self.PALETTE_CLASS", "cls._mk_palette")]
+            if calls and not (nm == "__init__" and not res[-1]):
+                raise ExtractError(f"hdoc.{q}.{nm} builds a palette of its own")
+    if res[0] != res[1]:
+        raise ExtractError("hdoc: HCommand and LLImpl obtain their palettes differently")
+    return res[0]
+
+
 def c_descr(s, synt_id):
     parent, fg, bold = parse_descr(s)
     p = "None" if parent is None else f"(Some {SX.cZ(synt_id(parent))})"
@@ -410,6 +524,10 @@ def gen_consts(repo):
             f"Definition enum_key_is_object : bool := {SX.cbool(ex['key_is_object'])}.\n"
             f"(* ColorsConfig.add_new_items: 'if any(new id): self._cache = {{}}' is present *)\n"
             f"Definition reset_cache_on_new : bool := {SX.cbool(ex['reset'])}.\n"
+            f"(* PPEnumFieldType: the by-value caches are indexed with _val_cache_key(value) = (type(value), str(value), value) (true) / with the value (false) *)\n"
+            f"Definition enum_val_key_literal : bool := {SX.cbool(ex['val_key_literal'])}.\n"
+            f"(* hdoc.HCommand / LLImpl: the palette is looked up when it is used (property _c: true) / captured by __init__ (false) *)\n"
+            f"Definition help_palette_at_call : bool := {SX.cbool(ex['help_at_call'])}.\n"
             + "".join(f"Definition {n} : Z := {_cls_index(ex, *mq)}.\n" for n, mq in names.items())
             + "".join(f"Definition acc_{a} : Z := {aid[a]}.\n" for a in ("text", "name", "number", "keyword")))
     return {"C10_Consts": text}
@@ -435,24 +553,28 @@ RULE = ("random histories of 4-14 operations over 1-3 objects (json values, tabl
         "random order; and results created first (make = obj.ch_text(...)) and consumed later: two or three results of one object under "
         "different settings (coloured / no_color / other configuration) consumed alternately step by step (next), with whole consumptions "
         "(str / full iteration) and ordinary renderings in between, drained at the end, or consumed whole only after other renderings; "
-        "tables there have break columns and record limits (service lines), json / report results share one printer / formatter.")
+        "tables there have break columns and record limits (service lines), json / report results share one printer / formatter.  "
+        "Plus 16 (thorough 200) equal-values histories (cells and keys 1 / True / 1.0, 0 / False / 0.0 / -0.0, 2 / 2.0, '1' through ONE enum field type "
+        "shared by 2-3 tables, every modifier, rendered alternately) and 12 (160) outliving-help histories (HCommand objects created before / under "
+        "another global configuration, set_global_colors_config / registrations in between, help through the OLD objects): regressions of the two "
+        "repaired findings.")
 TRUSTED_BASE = [
     "the chunk program of tables, record formatters, git history reports and console help (which palette accessor colours which text) is taken from the implementation by a probe rendering with an instrumented palette on a fresh copy of the object; their layout code is NOT modelled in Coq (tested: strip(coloured) = no_color on the implementation for objects at the layout thresholds, and the model, fed with the probe's layout, must reproduce the coloured text)",
     "lazy results: which line a generator step yields and which sub-palettes it requests first (the probe records, per line, how many sub-palettes had been requested when the line was yielded) are taken from the probe; the model has no state of its own for the object (format objects, records, service lines): that sibling objects and concurrent generators share nothing is exactly what the comparison with the model (programs of fresh copies) and the fresh-state oracle test",
     "pretty-printer values: the layout IS modelled (coq/C10/Layout.v, pp_obj); str() of numbers and of non-string keys and the order of dict keys (the implementation's _mk_type_sort_value) enter as oracle values",
     "CPython: id() of a live object is never handed to a new object; an object referenced from a dict key stays alive",
     "the colour description language is modelled for named foreground colours and bold only; add_new_items' eager resolution loop is modelled as following the parent chain in the current map; the re-entrant set_global_colors_config calls are flattened (harness/props/c10.notes.md)",
-    "gen/C10_Consts.v: palette class table (SYNTAX_DEFAULTS, PARENT_PALETTES, ConfColor fields through the mro), BUILT_IN_CONFIG, the enum cache key expression and the cache-reset clause of add_new_items are read from the source by harness/props/c10.py:extract (ast, fail-closed) and cross-checked against the imported classes in every implementation run",
+    "gen/C10_Consts.v: palette class table (SYNTAX_DEFAULTS, PARENT_PALETTES, ConfColor fields through the mro), BUILT_IN_CONFIG, the enum cache key expressions (cache_key = field_palette; val_key = _val_cache_key(value) = (type(value), str(value), value) at all 16 accesses to the by-value dicts), the cache-reset clause of add_new_items and the way HCommand / LLImpl obtain their palette (read-only property _c = self._mk_palette(None, None, None), nothing bound in __init__) are read from the source by harness/props/c10.py:extract (ast, fail-closed) and cross-checked against the imported classes in every implementation run",
 ]
 ASSUMPTIONS = [
     "texts handed to the formatters (cell values, keys, strings, commit messages, doc strings) contain no ESC character",
-    "values of one enum field type are pairwise distinct under Python equality (1 / True / 1.0 aliasing is the open finding enum-cache-equal-keys)",
+    "enum values: == / hash are an equivalence and str() is a function of the value (the by-value caches are keyed by (type(value), str(value), value))",
     "a CHTextResult is consumed under the configuration in force when ch_text() was called (the generated histories put no registration / drop / set-global between the creation of a lazy result and its last consumption); lines are turned into text with str(CHText(line)) (table rows are yielded as lists of chunks)",
     "palette classes do not declare conflicting defaults for the same syntax id and configurations do not form parent cycles",
 ]
 MODELLED = ("ak/color.py ColorsConfig caches / Palette metaclass / CompoundPalette / _mk_palette / global + synced palettes, "
             "ak/ppobj.py CHTextResult (palette selected by ch_text(), lines produced lazily: OMake / ONext / OWholeH -- results created first, "
-            "consumed later, step by step, interleaved) and the PPEnumFieldType cell cache, ak/hdoc.py HCommand palette capture; "
+            "consumed later, step by step, interleaved) and the PPEnumFieldType cell cache (per palette object, per literal), ak/hdoc.py HCommand (palette looked up per call: help = Render under the global configuration); "
             "ak/ppobj.py PrettyPrinter layout (_gen_ch_lines, _gen_ch_chunks_for_obj: one line below 200, wrapping at 150, indentation) in Layout.v; "
             "ghist and hdoc formatters, table / record layout: correspondence (with the probe's layout) and oracle only")
 
@@ -1131,6 +1253,76 @@ def _interleave_case(rng):
     return {"fts": fts, "objs": objs, "ops": ops, "shr": 1}
 
 
+ALIAS_VALUES = [1, True, 1.0, 0, False, 0.0, -0.0, 2, 2.0, "1", "True", None, 3, 1, True, 1.0]
+
+
+def _alias_case(rng):
+    """Python-equal values that print differently (1 / True / 1.0, 0 / False / 0.0 / -0.0, 2 / 2.0) as cells -- and as
+    keys -- of ONE enum field type shared by two or three tables, rendered one after the other and
+    again, coloured and no_color, with every modifier: each cell must be what a fresh field type prints for that very
+    value (regression of the repaired finding enum-cache-equal-keys: the cell and length caches were keyed by the value)"""
+    keys = rng.sample([1, 0, 2, True, 1.0, "1", 0.0], rng.randrange(2, 5))
+    ft = {"values": [[k, rng.choice(["one", "Active", "x", "Blocked"]), rng.choice([None, None, "name_good", "name_warn", "error"])] for k in keys],
+          "missing": rng.choice([None, None, ["<?>", "error"]])}
+    objs = []
+    for _ in range(rng.randrange(2, 4)):
+        # tables only: a value found in the enum dict through == but printed longer than the key (True for key 1) is
+        # truncated, and PPRecordFmt cannot truncate (AttributeError: no 'warn' accessor -- see the notes, outside C10)
+        kind = "table"
+        fields = ["st"] + (["id"] if rng.random() < 0.4 else [])
+        col = "st" + rng.choice(["", "/full", "/val", "/name"]) + rng.choice(["", ":1-20", ":12", ":1-20"])
+        fmt = ",".join([col] + fields[1:])
+        nrec = 1 if kind == "rec" else rng.randrange(1, 4)
+        recs = [[rng.choice(ALIAS_VALUES)] + [rng.randrange(100)] * (len(fields) - 1) for _ in range(nrec)]
+        spec = {"k": kind, "fields": fields, "ft": {"st": 0}, "fmt": fmt}
+        if kind == "rec":
+            spec["rec"] = recs[0]
+        else:
+            spec.update(recs=recs, header=None, footer=rng.choice([None, ""]), titles=None)
+        objs.append(spec)
+    a, b = rng.sample(COLORS[1:], 2)
+    ops = [["newconf", 0, False, {"RECORD.NUMBER": a, "RECORD.KEYWORD": b + ":bold"} if rng.random() < 0.7 else {}]]
+    order = list(range(len(objs))) * 2
+    rng.shuffle(order)
+    for o in order:
+        ops.append(["render", o, 0, rng.random() < 0.3, "none", 0 if objs[o]["k"] == "rec" else rng.choice([0, 0, 1, 2])])
+    return {"fts": [ft], "objs": objs, "ops": ops, "alias": 1}
+
+
+def _help_case(rng):
+    """console help objects that OUTLIVE the global configuration they were created under: h = HCommand() before any
+    configuration exists / under configuration A, then set_global_colors_config(B) (coloured, no_color, None = reset), a
+    registration into the global configuration, and help through the OLD object again -- it must print what a new
+    HCommand prints now (regression of the repaired finding hdoc-captured-palette: the palette was captured by __init__)"""
+    objs = [_threshold_hdoc(rng) if rng.random() < 0.5 else _rand_hdoc(rng)]
+    if rng.random() < 0.3:
+        objs.append({"k": "json", "v": _fix_keys({"id": 7, "ok": True}), "fj": False})
+    a, b = rng.sample(COLORS[1:], 2)
+    ops = []
+    nh = 0
+    if rng.random() < 0.5:
+        ops += [["newh", nh, rng.choice([1, 2])]]          # before any global configuration exists
+        nh += 1
+    ops += [["newconf", 0, False, {"HDOC.FUNC_NAME": a, "HDOC.ATTR": a + ":bold", "HDOC.TAG": "U.B"} if rng.random() < 0.7 else _all_colours(rng)],
+            ["newconf", 1, rng.random() < 0.5, {"HDOC.FUNC_NAME": b, "HDOC.TAG": b}]]
+    if rng.random() < 0.6:
+        ops += [["setglobal", 0]]
+    ops += [["newh", nh, rng.choice([1, 2])]]
+    nh += 1
+    ops += [["help", rng.randrange(nh), 0]]
+    steps = [[["setglobal", 1]], [["setglobal", None]], [["setglobal", 0]], [["reg", 0, {"U.B": rng.choice(COLORS[1:])}]]]
+    if len(objs) > 1:
+        steps.append([["render", 1, None, False, "none", 0]])
+    rng.shuffle(steps)
+    for st in steps[:rng.randrange(2, 5)]:
+        ops += st
+        ops += [["help", rng.randrange(nh), 0]]
+        if rng.random() < 0.3:
+            ops += [["newh", nh, rng.choice([1, 2])], ["help", nh, 0]]
+            nh += 1
+    return {"fts": [], "objs": objs, "ops": ops, "hlp": 1}
+
+
 def gen_cases(rng, tier):
     big = tier == "thorough"
     cases = [_rand_history(rng, big) for _ in range(4000 if big else 420)]
@@ -1141,18 +1333,20 @@ def gen_cases(rng, tier):
     cases += [_interleave_case(rng) for _ in range(360 if big else 36)]
     cases += [_reg_case(rng) for _ in range(200 if big else 12)]
     cases += [_synced_case(rng) for _ in range(200 if big else 12)]
+    cases += [_alias_case(rng) for _ in range(200 if big else 16)]
+    cases += [_help_case(rng) for _ in range(160 if big else 12)]
     cases += [_hunt_case(rng) for _ in range(12 if big else 3)]
     return cases
 
 
 def search_cases(rng, tier):
-    return [_sibling_case(rng) for _ in range(80)] + [_interleave_case(rng) for _ in range(120)] + [_threshold_case(rng) for _ in range(240)] + [_hunt_case(rng) for _ in range(30)] + [_reg_case(rng) for _ in range(60)] + [_synced_case(rng) for _ in range(60)] + [_rand_history(rng, True) for _ in range(600)]
+    return [_sibling_case(rng) for _ in range(80)] + [_interleave_case(rng) for _ in range(120)] + [_threshold_case(rng) for _ in range(240)] + [_hunt_case(rng) for _ in range(30)] + [_reg_case(rng) for _ in range(60)] + [_synced_case(rng) for _ in range(60)] + [_alias_case(rng) for _ in range(60)] + [_help_case(rng) for _ in range(60)] + [_rand_history(rng, True) for _ in range(600)]
 
 
 def kind(case):
     if case.get("hunt"):
         return "hunt"
-    return ("threshold:" if case.get("thr") else "") + ("shared/lazy:" if case.get("shr") else "") + "+".join(sorted({o["k"] for o in case["objs"]}))
+    return ("threshold:" if case.get("thr") else "") + ("shared/lazy:" if case.get("shr") else "") + ("equal-values:" if case.get("alias") else "") + ("outliving-help:" if case.get("hlp") else "") + "+".join(sorted({o["k"] for o in case["objs"]}))
 
 
 # ====================================================================== implementation side
@@ -1271,14 +1465,16 @@ def _instrument(pal, tag, ex, klasses, aid, sublog):
 
 
 class _Lits:
-    """literals of an enum field type: vkey = equality class (dict key), lit = literal"""
+    """literals of an enum field type: lit = literal (type, printed text and value: the key of the by-value caches since
+    the repair of enum-cache-equal-keys), vkey = class of the literal under == / hash (the key before the repair; the
+    model ignores it, Props.enum_equality_irrelevant)"""
     def __init__(self):
         self.lits = []      # python values
         self.keys = []      # vkey per literal
 
     def index(self, v):
         for i, x in enumerate(self.lits):
-            if type(x) is type(v) and x == v:
+            if type(x) is type(v) and str(x) == str(v) and x == v:
                 return i
         vk = None
         for i, x in enumerate(self.lits):
@@ -1496,10 +1692,12 @@ class _Probe:
         pal = _instrument(K(self.conf), "-", self.ex, self.klasses, self.aid, sublog)
         if kind == "hdoc":
             progs = []
+            # `_c` is a read-only property (the palette is looked up per call) since the repair of hdoc-captured-palette,
+            # an instance attribute before: a class attribute of a subclass shadows both
+            ProbeH = type("ProbeH", (HCommand,), {"_c": pal})
             for level in (1, 2):
-                h = HCommand.__new__(HCommand)
+                h = ProbeH.__new__(ProbeH)
                 h.dets_level = level
-                h._c = pal
                 progs.append([self._line(l.chunks) for l in h._gen_ch_lines(call, HCommand._DFLT_FILT_ARG, level, False)])
             return {"cls": self.klasses.index(K), "subs": [], "levels": progs}
         r = call(palette=pal)
@@ -1990,10 +2188,14 @@ def _model_ops(case, obs):
             copt = None if (isinstance(pa, list) or pa == "synced") else op[2]
             out.append((f"ORender {_handle_obj(case, obs, op[1], 0)} {SX.copt(copt, SX.cZ)} {SX.cbool(op[3])} {cpa} {op[5]} {ids}", texts))
         elif k == "newh":
+            # HCommand(level) does nothing to the world (the palette is looked up when help is printed): no model operation.
+            # Should the constructor create a palette after all, the model is made to disagree (one text against none)
             hlevel[op[1]] = op[2]
-            out.append((f"ONewH {op[1]} {ids}", texts))
+            if rec.get("ids"):
+                out.append((f"ORender (mkObj hcmd_cls (@nil Z) (@nil (list item))) None false PNone 1 {ids}", texts))
         elif k == "help":
-            out.append((f"OHelp {op[1]} {_c_obj(obs['progs'][op[2]], hlevel[op[1]])}", texts))
+            # h(obj): PALETTE_CLASS(None, None) = the palette of the global configuration NOW, lines joined with "\n"
+            out.append((f"ORender {_c_obj(obs['progs'][op[2]], hlevel[op[1]])} None false PNone 1 {ids}", texts))
         elif k == "make":
             made[op[1]] = op[2]
             pos[op[1]] = 0
@@ -2271,10 +2473,12 @@ TECHNIQUE = ("Coq proofs over an executable Gallina world model with explicit ob
              "are proved once per move and hence for every history and every allocation oracle; on top of them the Render operation is "
              "given in closed form.  Per-run correspondence of whole render histories (vm_compute vs implementation, chunk programs and "
              "identities as oracle values; the layout of pretty-printer values is computed by a Gallina model of the layout code and compared "
-             "at the 200 / 150 thresholds) + class table / enum cache key / cache reset clause regenerated from the source + independent "
+             "at the 200 / 150 thresholds) + class table / enum cache keys (palette object; (type, text, value) of the cell value) / cache reset clause / "
+             "'HCommand looks its palette up per call' regenerated from the source (the proofs need all four: source_facts) + independent "
              "fresh-state oracle on the implementation (strip(coloured) = no_color on objects AT the layout thresholds of every formatter)")
 LEVEL_TEXT = ("Model level, unbounded histories / objects / allocation oracles, guards: user syntax items in the modelled colour language, "
-              "no Python-equal enum values in one field type (obj_ok), no palette requested with synced=True.  "
+              "no palette requested with synced=True (the former guard 'no Python-equal enum values in one field type' is gone: "
+              "enum_equality_irrelevant).  "
               "FULL: caches_coherent (inv: no stale enum cell, cached palettes carry the colours of their configuration's current map, "
               "no_color palettes have no colours, prefixes are well-formed SGR), enum_cache_transparent, cache_reset_conf + cache_reset, "
               "whole_eq_lines_chunks + whole_eq_lines (whole / by line / both orders give one text), strip_layout_chunks + strip_layout "
@@ -2285,7 +2489,7 @@ LEVEL_TEXT = ("Model level, unbounded histories / objects / allocation oracles, 
               "(no_color flag, syntax map, registered classes); caches, identities, other configurations and earlier renderings do not enter).  "
               "PRETTY-PRINTER WITH ITS LAYOUT (Layout.v models _gen_ch_chunks_for_obj: one line below 200 visible characters, long lists wrapped at "
               "150, every measure on visible text; no colour enters the layout function): pp_layout_guards (the program of ANY json-like value meets "
-              "obj_ok / simple_obj / obj_noesc), pp_strip_layout (strip of any rendering = the no_color rendering, layout included), pp_closed_form "
+              "simple_obj / obj_noesc), pp_strip_layout (strip of any rendering = the no_color rendering, layout included), pp_closed_form "
               "(text = formula of value, format and configuration state), pp_layout_thresholds (the model at 192/204 and 144/156).  "
               "LAZY RESULTS (histories may create results first and consume them later, line by line, interleaved: operations OMake / ONext / "
               "OWholeH; reach and caches_coherent cover them): handle_created, handle_closed_forms (what a step / a whole consumption prints in ANY "
@@ -2301,10 +2505,19 @@ LEVEL_TEXT = ("Model level, unbounded histories / objects / allocation oracles, 
               "sub-palette has the colours of SOME registration-extension of the configuration in force -- which one depends on when it was "
               "first requested); all closed forms are relative to the configuration's CURRENT syntax map, which grows when palette classes "
               "register their defaults.  "
+              "REPAIRED AND PROVED (the two former *_refuted theorems are replaced by positive ones at full strength): "
+              "enum_equality_irrelevant (which enum values are equal under Python's == -- the key of the cell / length caches before the fix of "
+              "enum-cache-equal-keys -- enters NO operation: re-labelling the classes arbitrarily changes neither texts nor world; no theorem "
+              "carries the guard obj_ok any more) + enum_alias_repaired (the old witness, True after 1, now prints the fresh text); "
+              "help_closed_form + help_history_independent + help_no_color_global (console help = a formula of the help program and of the "
+              "state of the GLOBAL configuration in force at the call; when the HCommand was created and what was global then do not enter; "
+              "under a no_color global configuration it is plain text) + help_follows_global (the old witness) -- the fix of "
+              "hdoc-captured-palette; both rest on source_facts (enum_val_key_literal, help_palette_at_call read from the source, fail closed).  "
               "REFUTED on the faithful model: history_independent_statement (the full wording: equal to the rendering under a fresh "
-              "configuration with the same user content) by history_independent_refuted / _statement_false = open finding late-registered-parent, "
-              "enum_alias_refuted = open finding enum-cache-equal-keys (outside obj_ok), help_captured_refuted = open finding hdoc-captured-palette; "
-              "id_keyed_cache_refuted shows the repaired defect on the model with the cache keyed by id(palette) (the proofs need source_facts).  "
+              "configuration with the same user content) by history_independent_refuted / _statement_false = open finding late-registered-parent "
+              "(no small repair: any user entry whose parent id only comes into existence when another palette class registers is resolved late -- "
+              "lazy class registration is the design of ColorsConfig); "
+              "id_keyed_cache_refuted shows the repaired defect enum-cache-id-reuse on the model with the cache keyed by id(palette) (the proofs need source_facts).  "
               "TESTED ONLY (correspondence + fresh-state oracle, not theorems): the layout code of tables and record formatters (column widths, "
               "padding, truncation, header / footer / service lines), the git history report and console help formatters (for them strip(colored) = "
               "no_color, no ESC in no_color, whole = lines and order independence are checked on the implementation's output, on objects generated "
@@ -2313,6 +2526,6 @@ LEVEL_TEXT = ("Model level, unbounded histories / objects / allocation oracles, 
               "code by correspondence only (values at 200 +-3 and wrapped lists in every run).")
 LEVEL_NOTE = ("Trusted: Coq kernel + vm_compute; fidelity of the hand-written world model (checked by correspondence on whole histories, not "
               "proved); the chunk programs of the objects are taken from the implementation by a probe rendering; the ast extractor "
-              "(class table, enum cache key, cache reset clause) and the harness.  'Every printable object' is covered by theorems only "
+              "(class table, enum cache keys, cache reset clause, where HCommand / LLImpl obtain their palette) and the harness.  'Every printable object' is covered by theorems only "
               "through its chunk program; the producer of the programs is modelled for the pretty-printer (Layout.v) and tested for the others.")
 DESIGN_REF = "DESIGN.md section 8, C10"
